@@ -78,6 +78,7 @@ type inproc struct {
 	failAt   int // -1 = no read error
 	statuses []int
 	bodyLen  int
+	faultFor string // cut / read error only in the response for this cache name ("" = every response)
 }
 
 var errBodyFault = errors.New("injected body read failure")
@@ -115,7 +116,15 @@ func (r *faultReader) Close() error { return nil }
 const c14ExportURL = "http://exporter.invalid/export?action=cache+export&token=a%2Bb%26c"
 
 func (t *inproc) RoundTrip(req *http.Request) (*http.Response, error) {
+	// like net/http's transport: a request whose context is done is not sent
+	if err := req.Context().Err(); err != nil {
+		t.statuses = append(t.statuses, -1)
+
+		return nil, err
+	}
+
 	q := req.URL.Query()
+	asked := q.Get("name")
 
 	if q.Get("action") != "cache export" || q.Get("token") != "a+b&c" {
 		// the front door: not the export handler's business
@@ -147,6 +156,13 @@ func (t *inproc) RoundTrip(req *http.Request) (*http.Response, error) {
 	resp := rec.Result()
 	body := rec.Body.Bytes()
 	t.statuses = append(t.statuses, resp.StatusCode)
+
+	if t.faultFor != "" && asked != t.faultFor {
+		resp.Body = &faultReader{data: body, failAt: -1}
+
+		return resp, nil
+	}
+
 	t.bodyLen = len(body)
 
 	if t.cutAt >= 0 && t.cutAt < len(body) {
@@ -440,7 +456,19 @@ func c14Faults(cc c14Cell, env *Env) CellResult {
 				exp.AddCache("n", src.WDR())
 				imp.AddCache("n", dst.WDR())
 
-				tr := &inproc{h: exp.Export(), perturb: "none", cutAt: -1, failAt: -1}
+				// two more caches on both sides (one visited before, one after "n"): what happens to the body of "n" is
+				// not their business
+				others := map[string][2]xfer{}
+
+				for _, name := range []string{"m", "o"} {
+					os, od := newXfer(cc.Src), newXfer(cc.Dst)
+					c14Fill(os, cc.Src, []c14Entry{{KeyLen: 2, Val: 1, Exp: name == "o"}}, name+"y")
+					exp.AddCache(name, os.WDR())
+					imp.AddCache(name, od.WDR())
+					others[name] = [2]xfer{os, od}
+				}
+
+				tr := &inproc{h: exp.Export(), perturb: "none", cutAt: -1, failAt: -1, faultFor: "n"}
 				if off >= 0 {
 					if mode == 0 {
 						tr.cutAt = off
@@ -505,6 +533,15 @@ func c14Faults(cc c14Cell, env *Env) CellResult {
 				if off < 0 || off >= length {
 					if msg := compareSnap("complete body", want, got); msg != "" {
 						bad("content", msg)
+					}
+				}
+
+				for name, pair := range others {
+					ow, _, _ := pair[0].Snapshot()
+					og, _, _ := pair[1].Snapshot()
+
+					if msg := compareSnap("cache "+name+" (its own response was intact)", ow, og); msg != "" {
+						bad("other-cache-not-imported", msg+fmt.Sprintf("; responses: %v", tr.statuses))
 					}
 				}
 
@@ -858,7 +895,7 @@ func init() {
 		Cells: c14Cells, Run: c14Run,
 		Rule: "(transfer) all 27 assignments of three cache names (two of them need URL escaping) to exporter-only / importer-only / both, in every third case plus a cache under the empty name on both sides, x every entry set of <=2 entries over the C13 alphabet x backend pairing x request perturbation " +
 			"{none, types hash altered, types hash missing, name altered, name missing}, through an in-process RoundTripper that calls the Export handler (no sockets) and insists on the query parameters the export URL itself carries; " +
-			"(faults) the response body cut, and separately the body read failing, at EVERY byte offset, with the loggers of both sides rotating through {none, Error-only, all levels}; (hash) every registration sequence of length <=4 with repetitions over a pool of 4 types (struct, nested struct, map, and a struct registered through a pointer; and once more with two different types from different packages that are both called model.User) (340 each) x every way of splitting it into variadic GobRegister calls, each in a fresh process",
+			"(faults) three caches on both sides, the response body of one of them cut, and separately the body read failing, at EVERY byte offset, with the loggers of both sides rotating through {none, Error-only, all levels}; (hash) every registration sequence of length <=4 with repetitions over a pool of 4 types (struct, nested struct, map, and a struct registered through a pointer; and once more with two different types from different packages that are both called model.User) (340 each) x every way of splitting it into variadic GobRegister calls, each in a fresh process",
 		Assumptions: []string{
 			"net/http is used through Handler.ServeHTTP and a custom RoundTripper only; no scheduler is active",
 			"GobTypesHashReset is not part of the statement (fresh processes are) and is not used",
